@@ -639,10 +639,15 @@ func Run(c *hx.Ctx) {
 		listCase(c, n, n <= 64, 4)
 	}
 	// 6. MAX_SIZE boundary (implementation only: inputs of one megabyte are not turned into Coq terms)
-	for _, n := range []int{1, 100, 31774} {
-		exact := merkle.MAX_SIZE - n*(common.UINT256_SIZE+1) - 8
-		oracleSize(c, n, exact)
-		oracleSize(c, n, exact+1)
+	if merkle.MAX_SIZE <= 1<<26 {
+		top := (merkle.MAX_SIZE - 8) / (common.UINT256_SIZE + 1) // largest admissible list
+		for _, n := range []int{1, 100, top} {
+			exact := merkle.MAX_SIZE - n*(common.UINT256_SIZE+1) - 8
+			oracleSize(c, n, exact)
+			oracleSize(c, n, exact+1)
+		}
+		oracleSize(c, top+1, 0)
+	} else {
+		c.Note(fmt.Sprintf("MAX_SIZE = %d: boundary inputs too large to build; the size bound is covered by the proof obligations only", merkle.MAX_SIZE))
 	}
-	oracleSize(c, 31775, 0)
 }
